@@ -211,8 +211,26 @@ func extractGrpcBroker(p *pkgs, f *facts) {
 	} else {
 		f.miss = append(f.miss, "dialGRPCConn")
 	}
-	f.lean = append(f.lean, fmt.Sprintf("def grpcDial : GrpcBroker.DialParams := ⟨%s⟩", leanBool(optsFresh)))
-	f.set("grpcDial", map[string]interface{}{"optsFresh": optsFresh})
+	// DialWithOptions: no Lock() call outside function literals (the multiplexed dialer's own closure takes dialMutex)
+	waitsUnlocked := false
+	if dw := p.fn("GRPCBroker", "DialWithOptions"); dw != nil {
+		waitsUnlocked = true
+		ast.Inspect(dw.Body, func(n ast.Node) bool {
+			if _, isLit := n.(*ast.FuncLit); isLit {
+				return false
+			}
+			if ce, ok := n.(*ast.CallExpr); ok {
+				if r := exprString(ce.Fun); strings.HasSuffix(r, ".Lock") || strings.HasSuffix(r, ".RLock") {
+					waitsUnlocked = false
+				}
+			}
+			return true
+		})
+	} else {
+		f.miss = append(f.miss, "GRPCBroker.DialWithOptions")
+	}
+	f.lean = append(f.lean, fmt.Sprintf("def grpcDial : GrpcBroker.DialParams := ⟨%s, %s⟩", leanBool(optsFresh), leanBool(waitsUnlocked)))
+	f.set("grpcDial", map[string]interface{}{"optsFresh": optsFresh, "waitsUnlocked": waitsUnlocked})
 	// GRPCServerMuxer.Accept: the hand-off `acceptCh <- acceptResult{…}` is a plain send statement (not a select arm)
 	handoffBlocks := false
 	if acc := p.fn("GRPCServerMuxer", "Accept"); acc != nil {
